@@ -10,6 +10,7 @@ small-aperture real-ray limit of the transverse spherical term are decided on th
 outputs alone.
 """
 import copy
+import inspect
 import itertools
 import math
 
@@ -26,7 +27,7 @@ RULE = ('random axially symmetric prescriptions of spheres and planes only (2-9 
         'surface at or away from the paraxial focus, air or immersed) from the constraint-based generator, plus '
         'every bundled sample made of conic-free spheres and planes; a case is non-trivial when |sum S_I| (oracle) is '
         'above its float floor and the lens has >= 2 powered surfaces; distinct = distinct case hash')
-TIERS = {'quick': dict(shards=16, cases=18), 'thorough': dict(shards=16, cases=700)}
+TIERS = {'quick': dict(shards=16, cases=15), 'thorough': dict(shards=16, cases=600)}
 MIN_NONTRIVIAL = {'quick': 180, 'thorough': 5000}
 _PER = ('TSC', 'CC', 'TAC', 'TPC', 'DC', 'TAchC', 'TchC')
 MIN_EVALS = {c: {'quick': 200, 'thorough': 5000} for c in _PER + ('seidel-sums',)}
@@ -88,6 +89,8 @@ def gen_case(rng, tier, i):
     if r < 0.25:
         kw['mirrors_p'] = 0.35
     kw['stop'] = ['first', 'interior', 'last', 'any'][int(rng.integers(4))]
+    if 'obj_medium_p' in inspect.signature(L.gen_axial).parameters:
+        kw['obj_medium_p'] = 0.15                     # finite objects immersed in a medium (n_0 != 1)
     spec, info = L.gen_axial(rng, **kw)
     if rng.random() < 0.04:
         spec['fields'] = [[0.0, 0.0, 0.0]]
@@ -167,6 +170,8 @@ def check_case(case, rec):
     rec.cls('dispersive' if dispersive else 'no-dispersion', 'axial-field-only' if axial_only else 'off-axis-field')
     if dispersive and len(spec['wavelengths']) >= 2:
         rec.cls('dispersive-and-polychromatic')
+    if abs(inp['n'][0] - 1.0) > 1e-9:
+        rec.cls('object-space-immersed')
     if abs(inp['n'][-1] - 1.0) > 1e-9 or abs(inp['n'][-2] - 1.0) > 1e-9:
         rec.cls('image-space-immersed')
     if abs(inp['ya'][-1]) > 1e-6 * np.max(np.abs(inp['ya'])):
@@ -340,14 +345,21 @@ def real_ray_limit(rec, remake, o, inp, mechs, asbuilt):
         rec.cls('real-ray-limit-skipped-nonfinite')
         return
     rho = np.array(RHOS)
-    floor = 1e-11 * span / rho ** 3                     # float64 noise of the traced height, in units of y/rho^3
+    # float64 noise of the traced height: direction cosines carry ~1e-16 absolute error, times the longest
+    # free path (and ~1e-16 relative on the heights); 1e-13 * length leaves two orders of margin.  In y/rho^3:
+    gaps = [abs(b - a) for a, b in zip(z[:-1], z[1:]) if math.isfinite(a) and math.isfinite(b)]
+    floor = 1e-13 * max([span] + gaps) / rho ** 3
 
     def verdict(tsc):
         e = (ys - rho * y_par - rho ** 3 * tsc) / rho ** 3
         ok = True
         worst = 0.0
-        for a, b in ((0, 2), (1, 3)):                   # pairs one decade apart
-            lim = max(0.05 * abs(e[a]), floor[b], 1e-7 * size)
+        # the remainder e(rho) = a5 rho^2 + a7 rho^4 + ... must fall by ~100 per decade; the coarse level is
+        # taken from both coarse apertures (rho^2 law) so that a zero crossing of e at one of them cannot
+        # fake a slow decay
+        coarse = max(abs(e[0]), 9.0 * abs(e[1]))
+        for b, shrink in ((2, 1.0), (3, 9.0)):          # rho = 0.03 vs 0.3, rho = 0.01 vs 0.1
+            lim = max(0.05 * coarse / shrink, floor[b], 1e-7 * size)
             worst = max(worst, abs(e[b]) / lim)
             ok = ok and abs(e[b]) <= lim
         lim = 2e-3 * size + floor[-1]                   # O(rho^2) remainder at rho = 0.01
